@@ -81,6 +81,21 @@ func (x *Exec) doCall(st *State, fr *Frame, instr ssa.Instruction, c *ssa.CallCo
 		sig = c.Method.Type().(*types.Signature)
 		contract = x.ifaceContract(c.Method)
 		calleeName = c.Method.FullName()
+		// devirtualization: the interface value was made in this very path from a value of an in-tree
+		// type whose method has a body; the concrete method (its contract, or its body when it is
+		// declared inline) is what runs
+		if recv.boxed != nil && contract == nil {
+			if m := x.prog.LookupMethod(recv.boxed.typ, c.Method.Pkg(), c.Method.Name()); m != nil && len(m.Blocks) > 0 && x.isInTree(m) {
+				callee = m
+				contract = x.contractFor(m)
+				calleeName = m.String()
+				args[0] = *recv.boxed
+				sig = m.Signature
+				if recv.boxed.fn != nil {
+					fnv = nil
+				}
+			}
+		}
 	} else {
 		callee = c.StaticCallee()
 		if callee == nil {
@@ -223,7 +238,29 @@ func (x *Exec) isInTree(f *ssa.Function) bool {
 // autoInline: small in-tree helpers without contract and without loops/calls
 // to in-tree functions are executed in place (depth-limited).
 func (x *Exec) autoInline(f *ssa.Function) bool {
-	return false
+	if len(f.Blocks) == 0 || len(f.Blocks) > 12 || len(f.AnonFuncs) > 0 || f.Recover != nil {
+		return false
+	}
+	n := 0
+	for _, b := range f.Blocks {
+		for _, s := range b.Succs {
+			if s.Dominates(b) {
+				return false // a loop
+			}
+		}
+		for _, ins := range b.Instrs {
+			n++
+			switch v := ins.(type) {
+			case *ssa.Call:
+				if _, ok := v.Common().Value.(*ssa.Builtin); !ok {
+					return false
+				}
+			case *ssa.Go, *ssa.Defer, *ssa.Select, *ssa.Send, *ssa.MakeClosure:
+				return false
+			}
+		}
+	}
+	return n <= 60
 }
 
 func (x *Exec) pureCallback(st *State, fv T, sig *types.Signature, args []Val) Val {
